@@ -24,11 +24,16 @@ def run(rep, tier, seed):
             chk.run_config('population', consts(Cats=['A', 'AB', 'A_B', 'B'], Metas=METAS_SMALL, FilterNames=ALL_FILTERS,
                                                 Limits=[0, 1, 2, 5], Randoms=[False, True], Ops=['list', 'default'],
                                                 MaxSaves=len(pop), MaxQueries=1, Population=pop), cap=30000)
+            chk.run_config('resave', consts(Cats=['A', 'AB'], Metas=METAS_SMALL[:2], FilterNames=['none', 'skipinc'], Limits=[0, 1, 2],
+                                            Randoms=[False], Ops=['list', 'default', 'resave'], MaxSaves=2, MaxQueries=2), cap=20000)
             rep.exhaustive = bool(ex)
         else:
             ex = chk.run_config('hist', consts(Cats=['A', 'AB', 'A_B'], Metas=METAS_SMALL, FilterNames=ALL_FILTERS,
                                                Limits=[0, 1, 2], Randoms=[False, True], Ops=['list', 'default'],
                                                MaxSaves=2, MaxQueries=1), cap=400000)
+            chk.run_config('resave', consts(Cats=['A', 'AB'], Metas=METAS_SMALL[:3], FilterNames=['none', 'skipinc', 'k1a'],
+                                            Limits=[0, 1, 2], Randoms=[False, True], Ops=['list', 'default', 'resave', 'get'],
+                                            MaxSaves=2, MaxQueries=3), cap=100000)
             chk.run_config('hist3', consts(Cats=['A', 'AB', 'A_B'], Metas=METAS_SMALL[:3], FilterNames=['none', 'k1a', 'skipinc'],
                                            Limits=[0, 1, 2], Randoms=[False], Ops=['list', 'default'], MaxSaves=3,
                                            MaxQueries=1), cap=60000)
